@@ -13,6 +13,7 @@ extern crate alloc;
 mod shared;
 
 mod common;
+mod strt;
 mod dur;
 mod c01;
 mod c02;
@@ -72,6 +73,8 @@ fn dispatch(driver: &str, a: &Args) {
         "c09" => text::run_c09(&a),
         "c12" => val::run(&a),
         "c15" => dur::run(&a),
+        "c16" => strt::run(&a),
+        "probe" => strt::probe(&a),
         "c19replay" => c19::run_replay(&a),
         "c20" => c20::run(&a),
         "c20fixed" => c20::run_fixed(&a),
